@@ -23,7 +23,14 @@ X3 == << "x", "3" >>
 Y  == << "y" >>
 YT == << "y", "_", "t", "o", "t", "a", "l" >>      \* y_total: contains y; LAG_y_total contains LAG_y
 MY == << "m", "y" >>                               \* my: ends in y
-Sch(id, nms, grid, excls) == [id |-> id, names |-> nms, grid |-> grid, excls |-> excls]
+GAP == << "g", "a", "p" >>
+Sch(id, nms, grid, excls) == [id |-> id, names |-> nms, kinds |-> [i \in 1..Len(nms) |-> "solved"],
+                              grid |-> grid, excls |-> excls]
+(* schemes with a decorative series: an affine function of the solved series before it (gap = x1 - target) *)
+SchK(id, nms, kds, grid, excls) == [id |-> id, names |-> nms, kinds |-> kds, grid |-> grid, excls |-> excls]
+(* classes a solved series can end in and still pass the test, at a large level and at a small one, and one that fails *)
+MC_Pass == { Cl("pL", "pL", "rel_small"), Cl("nL", "nL", "rel_small"), Cl("pL", "pL", "small"),
+             Cl("nL", "nL", "small"), Cl("pL", "pL", "zero"), Cl("pL", "pL", "large") }
 AtMostOne(nms) == {{}} \cup { {nms[i]} : i \in 1..Len(nms) }
 
 MC_SchemesQuick == {
@@ -32,24 +39,29 @@ MC_SchemesQuick == {
     \* excluded names that contain / are contained in the name of a judged series
     Sch(3, << Y, YT >>,  << MC_Few, MC_Few >>,     { {YT}, {Y} }),
     Sch(4, << YT, Y >>,  << MC_Few3, MC_Few >>,    { {YT} }),
-    Sch(5, << Y >>,      << AllClasses >>,         { {YT}, {MY} }) }        \* the excluded name is no series at all
+    Sch(5, << Y >>,      << AllClasses >>,         { {YT}, {MY} }),         \* the excluded name is no series at all
+    SchK(6, << X1, GAP >>, << "solved", "decorative" >>, << MC_Pass, MC_Few >>, { {}, {GAP} }) }
 
 MC_SchemesThorough == {
     Sch(1, << X1, X2 >>, << AllClasses, AllClasses >>, AtMostOne(<< X1, X2 >>)),
     Sch(2, << Y, YT >>,  << AllClasses, MC_Few >>,     { {YT}, {Y}, {Y, YT} }),
-    Sch(3, << YT, Y >>,  << MC_Few, AllClasses >>,     { {YT}, {MY} }) }
+    Sch(3, << YT, Y >>,  << MC_Few, AllClasses >>,     { {YT}, {MY} }),
+    SchK(4, << X1, GAP >>, << "solved", "decorative" >>, << MC_Pass, AllClasses >>, { {}, {GAP} }) }
+(* (never excluded: a variable that a non-excluded one is computed from - see c15.py, assumptions) *)
 
 MC_SchemesThree == {
     Sch(1, << X1, X2, X3 >>, << AllClasses, MC_Few, MC_Few3 >>, AtMostOne(<< X1, X2, X3 >>)),
-    Sch(2, << Y, X1, YT >>,  << MC_Few, MC_Few3, MC_Few3 >>,    { {YT}, {Y}, {X1, YT} }) }
+    Sch(2, << Y, X1, YT >>,  << MC_Few, MC_Few3, MC_Few3 >>,    { {YT}, {Y}, {X1, YT} }),
+    SchK(3, << X1, GAP, X2 >>, << "solved", "decorative", "solved" >>, << MC_Pass, MC_Few, MC_Few3 >>, { {}, {X2} }) }
 
 MC_SchemesFull3 == {
     Sch(1, << X1, X2, X3 >>, << AllClasses, AllClasses, AllClasses >>, AtMostOne(<< X1, X2, X3 >>)),
-    Sch(2, << Y, X1, YT >>,  << AllClasses, AllClasses, MC_Few >>,     { {YT} }) }
+    Sch(2, << Y, X1, YT >>,  << AllClasses, AllClasses, MC_Few >>,     { {YT} }),
+    SchK(3, << X1, GAP, X2 >>, << "solved", "decorative", "solved" >>, << AllClasses, AllClasses, MC_Few >>, { {}, {GAP} }) }
 
 (* every maximal behaviour is printed once, as JSON, for the replay driver *)
 Emit == Terminal =>
-          PrintT(<< "BEH", ToJson([n |-> n, names |-> names, option |-> option, excluded |-> excluded,
+          PrintT(<< "BEH", ToJson([n |-> n, names |-> names, kinds |-> kinds, option |-> option, excluded |-> excluded,
                                    sid |-> sid, wf |-> wf, runres |-> runres,
                                    cls |-> cls, phase |-> phase, exc |-> exc]) >>)
 =============================================================================
